@@ -18,7 +18,7 @@ func init() { register("C05", "other", checkC05) }
 
 func checkC05(w *World, r *Result) {
 	r.Explanation = "Decides the structural clauses the property names: AGR-C05a in newColumnsCode the per-column lists fall into two groups (all columns / without the primary key) and within a group every list grows once per iteration in the same block (equal lengths, aligned positions); guards are skipped first; AGR-C05b every placeholder appended to a list X is `$len(X)+1` (numbered 1..n without gap); AGR-C05e the index compared with Table.Primary() is the range index over ta.Columns itself (the slice Primary() indexes); columnsCount is the length of the full group; TPL-C05c in every statement of the CRUD templates the column list, the placeholder list and the Go argument list come from the same group, SELECT/RETURNING lists are the full group (what the scan destinations expect), the UPDATE id placeholder is columnsCount and its argument follows the values, and statements with literal placeholders carry exactly $1..$n and n arguments; helper comparisons number i+1 over the same columns their argument names come from; AGR-C05d every table position is filled by SQLTableName and every column position by the Go field name (lower-cased in CRUD), never by the JSON name; AGR-C08f/AGR-C08t foreign-key detection shared with the DDL (rules shared with C08); TPL-1 the templates parse as Go. Does not decide: that statements execute without SQL error or the map-model behaviour over histories (needs a database)."
-	r.Rules = []string{"AGR-C05a", "AGR-C05b", "AGR-C05e", "TPL-C05c", "AGR-C05d", "AGR-C08f", "AGR-C08t", "AGR-C05k", "TPL-C05p", "TPL-C05s", "RE-C16", "TPL-1", "ALIAS-APPEND", "PRINTF", "MUT-AN"}
+	r.Rules = []string{"AGR-C05a", "AGR-C05b", "AGR-C05e", "TPL-C05c", "AGR-C05d", "AGR-C08f", "AGR-C08t", "AGR-C08b", "AGR-C05k", "TPL-C05p", "TPL-C05s", "RE-C16", "TPL-1", "ALIAS-APPEND", "PRINTF", "MUT-AN"}
 	mutAnRule(w, r, func(rel string) bool { return rel == "generator/go/sqlcrud" })
 	printfRule(w, r, "generator/go/sqlcrud")
 	aliasAppendRule(w, r, func(rel string) bool {
@@ -39,6 +39,9 @@ func checkC05(w *World, r *Result) {
 	for _, o := range sub.Obs {
 		r.add(o)
 	}
+	// columns the CRUD statements leave out (guards) rely on the DEFAULT the DDL gives each of them: the constraint
+	// families are produced for every column (rule shared with C08)
+	shared(r, func(o Ob) bool { return o.Rule == "AGR-C08b" }, func(sub *Result) { checkConstraintFamilies(w, sub) })
 	checkCompositeLockstep(w, r)
 	checkScanLoops(w, r)
 	// the table-name replacer used for custom queries (rule shared with C16)
